@@ -586,6 +586,26 @@ fn main() {
             mismatch("current_thread_index", k, format!("k={}", kk));
         }
     }
+    // the clock seam: std's clocks, read on a simulated thread, follow the simulator's offset
+    {
+        let prev = sim_rayon::clock::set_thread_sim_time(true);
+        let t = std::time::Instant::now();
+        let st = std::time::SystemTime::now();
+        sim_rayon::clock::advance_ns(5_000_000_000);
+        let (e, se) = (t.elapsed(), st.elapsed().unwrap_or_default());
+        sim_rayon::clock::set_thread_sim_time(false);
+        let t2 = std::time::Instant::now();
+        sim_rayon::clock::advance_ns(5_000_000_000);
+        let e2 = t2.elapsed();
+        sim_rayon::clock::set_thread_sim_time(prev);
+        evals += 1;
+        if e.as_secs() < 5 || se.as_secs() < 5 || e2.as_secs() >= 1 {
+            bad += 1;
+            println!("MODEL-MISMATCH clock seam: simulated thread saw {:?} / {:?} (want >= 5 s), unmarked thread saw {:?} (want ~0)", e, se, e2);
+        }
+        sim_rayon::clock::reset();
+    }
+
     // reach: the contract-free pipelines must actually vary
     let reach = [
         ("par_bridge order differs from input order in some schedule", distinct_bridge.iter().any(|s| s.ends_with("true"))),
